@@ -163,6 +163,33 @@ class Equip:
                 en, st = r.get()
                 out = "(DAlarmLists " + idsl(list(en)) + " " + idsl(list(st)) + ")"
             return "DReqAlarmSVs", out
+        if kind in ("set_alarm_asked", "clear_alarm_asked"):
+            # the host asks for the alarm (S5F5, S5F7, the AlarmsSet status variable) BEFORE it answers the S5F1: the change has happened,
+            # the answers show it.  Only for an enabled, existing alarm whose state changes (an S5F1 is on its way); else like the plain op
+            a = h.alarms.get(op[1])
+            setting = kind == "set_alarm_asked"
+            if a is None or not a.enabled or bool(a.set) == setting:
+                return self.do(("set_alarm" if setting else "clear_alarm", op[1]))
+            fn = h.set_alarm if setting else h.clear_alarm
+            responder = self.rig.responders.pop((5, 1))
+            try:
+                th, holder = self.rig.call(lambda: fn(op[1]), wait_for=(5, 1))
+                rep = [b for b in self.rig.new_frames() if (b.header.stream, b.header.function) == (5, 1)]
+                if rep:
+                    v = self.rig.sf.decode(gemrig.HsmsMessage(rep[0].header, rep[0].data)).get()
+                    first = (f"(DSetAlarm {idl(op[1])})" if setting else f"(DClearAlarm {idl(op[1])})", f"(DReport {L.z(int(v['ALCD']))} {idl(v['ALID'])})")
+                else:
+                    first = (f"(DSetAlarm {idl(op[1])})" if setting else f"(DClearAlarm {idl(op[1])})", "DNone")
+                asked = [self.do(("list_al", [op[1]])), self.do(("list_enabled", [])), self.do(("alarm_svs",))]
+            finally:
+                self.rig.responders[(5, 1)] = responder
+                if (5, 1) in self.rig.pending:
+                    self.rig.resolve((5, 1), lambda system: gemrig.data_frame(5, 2, system, b"\x21\x01\x00"))
+            th.join(10)
+            if th.is_alive() or not self.rig.settle():
+                raise RuntimeError("set_alarm/clear_alarm did not return after the S5F2")
+            self.rig.new_frames()
+            return [first] + asked
         if kind == "update_sv":
             if op[1] in h.status_variables:
                 h.status_variables[op[1]].value = op[2]
@@ -175,9 +202,12 @@ def run_history(ops):
     steps = []
     try:
         for op in ops:
-            lit, out = eq.do(op)
+            pairs = eq.do(op)
+            if isinstance(pairs, tuple):
+                pairs = [pairs]
             ecv, al, sv = eq.snapshot()
-            steps.append("{| d_op := " + lit + "; d_out := " + out + "; d_ecv := " + ecv + "; d_al := " + al + "; d_sv := " + sv + " |}")
+            for lit, out in pairs:
+                steps.append("{| d_op := " + lit + "; d_out := " + out + "; d_ecv := " + ecv + "; d_al := " + al + "; d_sv := " + sv + " |}")
         init = eq.init_lit()
     finally:
         eq.rig.stop()
@@ -225,15 +255,17 @@ def rand_ops(rnd, n):
         elif c < 0.82:
             ops.append(("alarm_svs",))
         elif c < 0.88:
-            ops.append(("set_alarm", rnd.choice(ALIDS + ([7] if rnd.random() < 0.1 else []))))
+            ops.append(("set_alarm" if rnd.random() < 0.7 else "set_alarm_asked", rnd.choice(ALIDS + ([7] if rnd.random() < 0.1 else []))))
         elif c < 0.95:
-            ops.append(("clear_alarm", rnd.choice(ALIDS)))
+            ops.append(("clear_alarm" if rnd.random() < 0.7 else "clear_alarm_asked", rnd.choice(ALIDS)))
         else:
             ops.append(("update_sv", rnd.choice([10, "sx", 12]), rnd.randint(0, 9999)))
     return ops
 
 
 DIRECTED = [
+    # the host asks while the S5F1 is still unanswered
+    [("al_enable", 1, True), ("set_alarm_asked", 1), ("clear_alarm_asked", 1), ("al_enable", 2, True), ("set_alarm_asked", 2), ("set_alarm_asked", 1), ("clear_alarm_asked", 2)],
     [("req_sv", []), ("req_sv", [12, 99, 10, 10, "sx"]), ("name_sv", []), ("name_sv", ["zz", 10]), ("update_sv", 10, 77), ("req_sv", [10])],
     [("req_ec", []), ("name_ec", []), ("name_ec", [99, "ex", 30]), ("set_ec", [(10, 100), ("ex", -5.0)]), ("req_ec", [10, "ex", 99]), ("set_ec", [(10, 101)]), ("set_ec", [(10, 1), (99, 1)]),
      ("set_ec", [(99, 1), (10, 2)]), ("set_ec", [(10, 3), ("ex", 6.0)]), ("set_ec", [("ex", 6.0), (10, 3)]), ("req_ec", [10, "ex"]), ("set_ec", [(10, 5), (10, 6)]), ("req_ec", [10])],
